@@ -252,6 +252,7 @@ def observe_dask(x, keep=None):
             return ('badtype', f'ddf.geometry.name={gn!r} but meta.geometry.name={meta[2]!r}')
     parts = []
     got_frames = []
+    del LAST_ERRORS[:]
     wide = x.npartitions > WIDE_ABOVE
     if wide:
         # wide frames: all partitions of the collection itself in ONE pass (map_partitions over
@@ -260,6 +261,10 @@ def observe_dask(x, keep=None):
         if grabbed is not None:
             got_frames = grabbed
             parts = [C.Some(observe(p)) for p in grabbed]
+        elif x.npartitions > 16:
+            # (the per-partition route would take minutes; what raised is in LAST_ERRORS)
+            got_frames = [None] * x.npartitions
+            parts = [None] * x.npartitions
     # partition i of the collection itself (to_delayed() may optimise a repartition away and
     # show another partitioning than the one cx / partition_bounds / map_partitions work on)
     for i in range(x.npartitions if not parts else 0):
@@ -270,9 +275,7 @@ def observe_dask(x, keep=None):
         except Exception as e:  # noqa: BLE001
             parts.append(None)
             got_frames.append(None)
-            import traceback
-            tb = traceback.extract_tb(e.__traceback__)
-            PART_ERRORS.append((type(e).__name__, tb[-1].filename if tb else ''))
+            PART_ERRORS.append(_note('partition', e)[1:])
     if keep is not None:
         keep.extend(got_frames)
     try:
@@ -289,14 +292,56 @@ def observe_dask(x, keep=None):
             comp = None
         else:
             comp = C.Some(observe(fr[0] if len(fr) == 1 else pd.concat(fr)))
-    except Exception:
+    except Exception as e:  # noqa: BLE001
+        _note('compute', e)
         comp = None
     return (meta, parts, comp)
 
 
 COMPUTE_ASSERTIONS = [0]
 PART_ERRORS = []
+LAST_ERRORS = []        # (where, exception type, file of the innermost frame) of the last observe_dask
 WIDE_ABOVE = 8
+
+
+def _note(where, e):
+    import traceback
+    tb = traceback.extract_tb(e.__traceback__)
+    rec = (where, type(e).__name__, tb[-1].filename if tb else '')
+    LAST_ERRORS.append(rec)
+    return rec
+
+
+def dask_internal_keyerror(e):
+    """a KeyError raised by Dask's own task machinery (innermost frame inside the dask package)"""
+    import traceback
+    tb = traceback.extract_tb(e.__traceback__)
+    return isinstance(e, KeyError) and bool(tb) and '/dask/' in tb[-1].filename
+
+
+_SUBSET_BUG = []
+
+
+def dask_task_shuffle_subset_bug():
+    """Does the installed Dask raise KeyError when a SUBSET of the partitions of a multi-stage
+    task-based shuffle (more than 32 partitions) is computed - with plain pandas frames, no
+    spatialpandas object involved?  (dask 2026.8: ddf.sort_values(k, shuffle_method='tasks')
+    .partitions[1:].compute() -> KeyError.)  Evaluated once per run; only when it is reproduced on
+    plain pandas is the same KeyError met on geo frames attributed to Dask and not compared."""
+    if not _SUBSET_BUG:
+        import dask.dataframe as dd
+        import pandas as pd
+        n, k = 120, 40
+        df = pd.DataFrame({'v': unsorted_permutation(n), 'w': np.arange(n)})
+        r = dd.from_pandas(df, npartitions=k).sort_values('v', shuffle_method='tasks')
+        try:
+            r.partitions[list(range(1, r.npartitions))].compute(scheduler='synchronous')
+            _SUBSET_BUG.append(False)
+        except KeyError as e:
+            _SUBSET_BUG.append(dask_internal_keyerror(e))
+        except Exception:  # noqa: BLE001
+            _SUBSET_BUG.append(False)
+    return _SUBSET_BUG[0]
 
 
 def grab_partitions(x):
@@ -314,7 +359,8 @@ def grab_partitions(x):
     try:
         x.map_partitions(grab, meta=pd.DataFrame({'i': pd.Series([], dtype='int64')}),
                          enforce_metadata=False).compute(scheduler='synchronous')
-    except Exception:  # noqa: BLE001
+    except Exception as e:  # noqa: BLE001
+        _note('partitions', e)
         return None
     if sorted(store) != list(range(x.npartitions)) or any(len(v) != 1 for v in store.values()):
         return None
